@@ -78,6 +78,11 @@ def gen(rng, depth=0, max_depth=3):
                 info['attrs'] = [rand_attr(rng, k) for k in range(1, rng.choice([1, 1, 2, 2, 3, 5]) + 1)]
             ids = ['#' + info['id']] if info['id'] else []
             cls = ['.' + c for c in info['classes']]
+            if len(info['classes']) >= 2 and rng.random() < 0.15:
+                # the same class list written as a bracket attribute whose value mixes text and tabstop fields (blanks next to a field separate all the same)
+                k = rng.randrange(len(info['classes']))
+                parts = [('${%d:%s}' % (j + 1, c) if (j == k or rng.random() < 0.3) else c) for j, c in enumerate(info['classes'])]
+                cls = ['[class="%s"]' % ' '.join(parts)]
             n.mentions = (ids + cls if info['id_first'] else cls + ids) + [a[2] for a in info['attrs']]
             if rng.random() < 0.3:
                 n.text = rng.choice(TEXTS) if rng.random() < 0.5 else rand_text(rng)
